@@ -39,6 +39,15 @@ Lemma read_proof :
     let s := run cfg init ops in
     nth h (slots s) None = Some (sd, o) ->
     fst (step cfg s (ORead h c)) =
+      if negb (cacheVals cfg) then
+        (* cacheValues = False: every read queries the own connection's view; a destroyed instance and a missing row assert *)
+        if i_obsolete (get_inst s sd o) then Raise EAssertion
+        else if dead s sd then Raise EAssertion
+             else match tbl_lookup (view s sd) (i_id (get_inst s sd o)) with
+                  | Some r => Ret (RVal (nth c r None))
+                  | None => Raise EAssertion
+                  end
+      else
       match nth c (i_vals (get_inst s sd o)) None with
       | Some v => Ret (RVal v)
       | None => if dead s sd then Raise EAssertion
@@ -47,7 +56,16 @@ Lemma read_proof :
                      | None => Raise ENotFound
                      end
       end.
-Proof. intros cfg ops h sd o c s H. apply read_spec. exact H. Qed.
+Proof.
+  intros cfg ops h sd o c s H. rewrite (read_spec cfg s h sd o c H), so_read_fst.
+  change (get_inst (with_log s []) sd o) with (get_inst s sd o). change (dead (with_log s []) sd) with (dead s sd).
+  change (view (with_log s []) sd) with (view s sd).
+  destruct (negb (cacheVals cfg)).
+  - destruct (i_obsolete (get_inst s sd o)); [reflexivity|]. destruct (dead s sd); [reflexivity|].
+    destruct (tbl_lookup (view s sd) (i_id (get_inst s sd o))); reflexivity.
+  - destruct (nth c (i_vals (get_inst s sd o)) None); [reflexivity|]. destruct (dead s sd); [reflexivity|].
+    destruct (tbl_lookup (view s sd) (i_id (get_inst s sd o))); reflexivity.
+Qed.
 
 Lemma count_proof :
   forall (cfg : config) (ops : list op) (sd : side),
@@ -248,7 +266,7 @@ Proof.
     unfold db_update.
     match goal with |- context [stmt_write Txn ?q ?rf ?f (with_log s [])] =>
       destruct (stmt_write Txn q rf f (with_log s [])) as [[u|e] s1] eqn:Ew;
-      [destruct (i_expired (get_inst (with_log s []) Txn x)); unfold upd_inst, modify; cbn; discriminate|];
+      [destruct (i_expired (get_inst (with_log s []) Txn x) || negb (cacheVals cfg)); unfold upd_inst, modify; cbn; discriminate|];
       cbn [fst snd]; intros He; inversion He; subst e;
       pose proof (refused_write_proof _ q rf f (with_log s [])) as R
     end.
